@@ -1229,8 +1229,10 @@ class Response:
                 return
             value = CacheControl.parse(value, type="response")
         cache = self.cache_control
+        # value may be this very object (or wrap its properties): copy first
+        properties = dict(value.properties)
         cache.properties.clear()
-        cache.properties.update(value.properties)
+        cache.properties.update(properties)
 
     def _cache_control__del(self):
         self.cache_control = {}
